@@ -575,6 +575,12 @@ class Repo:
                     f = self.func_by_node.get(id(v))
                     if f:
                         return ('func', f)
+                if isinstance(v, ast.Call) and (dotted(v.func) or '').split('.')[-1] == 'partial' and v.args:
+                    dd2 = dotted(v.args[0])
+                    if dd2 is not None:
+                        r2 = self.resolve(m, dd2)
+                        if r2 is not None:
+                            return r2
                 return ('var', m, name)
             if name in m.ann:
                 return ('var', m, name)
